@@ -68,3 +68,24 @@ Theorem C05_jobs_scope : forall jobs n o,
   end.
 Proof. exact jobs_scope_spec. Qed.
 Print Assumptions C05_jobs_scope.
+
+(* ---- every position from which a reference can be made: the semantic checker
+   skips no sub-expression.  A reference to a name that is not in scope
+   (receiver, index, operand of ! or of a comparison, either side of && / ||
+   in both narrowing modes — the condition of `c && a || b` included —,
+   argument of a defined function) is reported wherever it stands; only the
+   arguments of an undefined function are not visited. *)
+From AL Require Expr.Types Expr.Sema Expr.SemaVisit.
+
+Theorem C05_reference_reported_wherever_it_stands :
+  forall (mg : Types.ty -> Types.ty -> Types.ty) (fa : bool) (E : Sema.env) e nw p name,
+  SemaVisit.reach E e (Ast.EVar p name) -> AList.lookup name (Sema.e_vars E) = None ->
+  In (Sema.mkdiag p Sema.DUndefVar) (snd (Sema.chk mg fa E nw e)).
+Proof. exact SemaVisit.undefined_var_reported. Qed.
+Print Assumptions C05_reference_reported_wherever_it_stands.
+
+Theorem C05_reference_position_example :
+  let E := {| Sema.e_vars := []; Sema.e_funcs := []; Sema.e_avail := []; Sema.e_spavail := []; Sema.e_special := []; Sema.e_config := None; Sema.e_json := [] |} in
+  snd (Sema.check E (Ast.ECall (Ast.Build_tpos 1 1 1) "nosuch" [Ast.EVar (Ast.Build_tpos 1 8 8) "zzz"])) = [Sema.mkdiag (Ast.Build_tpos 1 1 1) Sema.DUndefFunc].
+Proof. exact SemaVisit.undefined_function_hides_arguments. Qed.
+Print Assumptions C05_reference_position_example.
